@@ -197,6 +197,10 @@ _agent("C20", [("c20_poll_one", "poll result and reported instants are the model
                ], [("c20_agg2_o0", _AGG)],
        extra_assume=["no-ambient-state half: Kani fails any harness that can reach clock_gettime/getrandom or another foreign function; every agent harness passing means none is reachable from send/poll/handle_stun/cancel (std HashMap's RandomState seed is excluded by the map model)"])
 
+for _p in ("C05", "C20"):
+    PROPS[_p]["jobs"].append(K("c06cfg::c06_configure_udp_3", encodes="configure_timeout touches only the schedule table of its transaction (timeout_i, last_send_time, flags and every other transaction unchanged) and reaches no clock / foreign function",
+                               bounds="rto 1..=60000 ms, last 0..=60000 ms, 3 retransmissions, arbitrary schedule position", mem=6, timeout=1200))
+
 PROPS["C14"] = dict(
     functions=["TcpBuffer::{new,push_data,pull_data,take}"],
     bounds="every stream content of N bytes pushed as two chunks cut at P1, for the enumerated (N, P1) pairs (N 2..=8; all cut points for N = 6), a pull after each push and two more (4 pulls); "
